@@ -16,7 +16,7 @@ VARIABLES cs, out
 KeyTypes == 0..4                 \* Ed25519, P-256, P-384, P-521, secp256k1
 IsECDSA(kt) == kt # 0
 
-SigForms == {"genuine", "twin", "flippedByte", "truncated", "extended", "empty", "zeroes", "otherKeySameType", "otherKeyOtherType"}
+SigForms == {"genuine", "twin", "flippedByte", "truncated", "extended", "resizedHalves", "empty", "zeroes", "otherKeySameType", "otherKeyOtherType"}
 HdrTampers == {"none", "algChanged", "memberAdded", "whitespaceOnly"}
 PayloadTampers == {"none", "byteChanged", "byteAppended"}
 VerifyKeys == {"signer", "otherSameType", "otherType"}
